@@ -64,6 +64,20 @@ CLAIMS = {
             "waits re-check their predicate inside one critical section, notifications cannot race a predicate check, the set of "
             "(lock held, condvar waited) pairs equals a triaged table, every awaited state change is announced, failed compactions "
             "release their claim.  Does not decide that a relieving compaction is always selectable, nor fairness.", "§4 C20"),
+    "C01": ("ORDER/GUARDED/ORIGIN over KeyValueStore::load, Version::load, open/recover; re-evaluates C06.1, C02.4, C06.4",
+            "Decides the lookup-precedence and freshness skeleton: mem before imm before tree with early exit on hit or tombstone; "
+            "L0 newest-first before deeper levels; batches stamped with the fresh sequence number before use; publish after "
+            "durable; imm cleared after ingest; sequence numbers restart above every existing timestamp.  Does not decide "
+            "compaction input closure, recovery level assignment, bloom/block search arithmetic.", "§4 C01"),
+    "C03": ("ORIGIN chains (pipeline composition), loop-body MUSTPASS (every file wrapped and merged), GUARDED (overlap skip), HELD (snapshot capture)",
+            "Decides pipeline composition: every scan is Bounds(Pruning(Merging(components))) with the captured timestamp and "
+            "the caller's bounds, no component (mem, imm, any L0 file, any overlapping deeper file) can be left out, the snapshot "
+            "is captured atomically, exhaustion is tested through key().  Does not decide ordering/exactly-once/seek landing.", "§4 C03"),
+    "C11": ("SIBLINGS forwarding tables, GUARDED key-before-value tests, ORDER on the merging cursor's direction switch",
+            "Decides sibling consistency of the combinators: value() presence tests are tombstone tests (key known Some), wrappers "
+            "forward m to m and never cross key/value, a direction switch advances every child before flipping the comparator "
+            "and rebuilding the heap, every seek positions every child, pruning filters by timestamp <= snapshot and recognises "
+            "tombstones.  Does not decide the combinator equivalences for all inputs.", "§4 C11"),
 }
 
 NA_DEFAULT = "check not built yet (DESIGN.md §8 build order); will be claimed once its rule set is armed"
